@@ -40,6 +40,11 @@ Qed.
 Lemma eqb_false : forall a b, a <> b -> (a =? b) = false.
 Proof. intros a b H. apply Z.eqb_neq. exact H. Qed.
 
+Lemma in_range_false : forall lo hi x, x < lo \/ hi < x -> in_range lo hi x = false.
+Proof.
+  intros lo hi x H. unfold in_range. apply andb_false_iff. destruct H as [H|H]; [left|right]; apply Z.leb_gt; exact H.
+Qed.
+
 (* ---- span ------------------------------------------------------------------- *)
 Definition stops (p : Z -> bool) (r : list Z) : Prop :=
   match r with [] => True | x :: _ => p x = false end.
@@ -354,7 +359,7 @@ Lemma lower_vis : forall c r, 97 <= c <= 122 -> next_token (c :: r) = lex_lower 
 Proof.
   intros c r H. rewrite next_token_vis; [|unfold is_blank; rewrite !eqb_false by lia; reflexivity|lia].
   unfold lex_visible.
-  replace (is_digit c) with false by (symmetry; unfold is_digit, in_range; apply andb_false_iff; left; apply Z.leb_gt; lia || (right; apply Z.leb_gt; lia)).
+  replace (is_digit c) with false by (symmetry; apply in_range_false; lia).
   rewrite (eqb_false c 45), (eqb_false c 46), (eqb_false c 47) by lia.
   replace (is_quote c) with false by (unfold is_quote; rewrite !eqb_false by lia; reflexivity).
   replace (is_lower c) with true by (symmetry; apply in_range_iff; exact H). reflexivity.
@@ -394,10 +399,10 @@ Proof.
   - apply andb_true_iff in V. destruct V as [V1 V2]. apply in_range_iff in V1.
     cbn [app]. rewrite next_token_vis; [|unfold is_blank; rewrite !eqb_false by lia; reflexivity|lia].
     unfold lex_visible.
-    replace (is_digit c) with false by (symmetry; unfold is_digit, in_range; apply andb_false_iff; right; apply Z.leb_gt; lia).
+    replace (is_digit c) with false by (symmetry; apply in_range_false; lia).
     rewrite (eqb_false c 45), (eqb_false c 46), (eqb_false c 47) by lia.
     replace (is_quote c) with false by (unfold is_quote; rewrite !eqb_false by lia; reflexivity).
-    replace (is_lower c) with false by (symmetry; unfold is_lower, in_range; apply andb_false_iff; left; apply Z.leb_gt; lia).
+    replace (is_lower c) with false by (symmetry; apply in_range_false; lia).
     replace (is_upper c) with true by (symmetry; apply in_range_iff; exact V1).
     unfold lex_upper.
     assert (St : stops var_char rest).
